@@ -93,5 +93,40 @@ public class ByteBuf {
         if (n < 0 || r + n > w) { throw new IndexOutOfBoundsException("read past end"); }
         String s = new String(data, r, n, cs); r += n; return s;
     }
+    // ---- more of netty's ByteBuf surface, so that a reasonable edit of an emitter still compiles against this stand-in
+    public int writeCharSequence(CharSequence s, Charset cs) { byte[] b = s.toString().getBytes(cs); writeBytes(b); return b.length; }
+    public ByteBuf writeBytes(byte[] b, int off, int len) { ensure(len); System.arraycopy(b, off, data, w, len); w += len; return this; }
+    public ByteBuf writeBytes(ByteBuf src) { byte[] b = new byte[src.readableBytes()]; src.readBytes(b); return writeBytes(b); }
+    public ByteBuf writeZero(int n) { for (int i = 0; i < n; i++) writeByte(0); return this; }
+    public ByteBuf writeBoolean(boolean v) { return writeByte(v ? 1 : 0); }
+    public boolean readBoolean() { return readByte() != 0; }
+    public short readUnsignedByte() { return (short) (readByte() & 0xff); }
+    public int readUnsignedShort() { return readShort() & 0xffff; }
+    public int readUnsignedShortLE() { return readShortLE() & 0xffff; }
+    public long readUnsignedInt() { return readInt() & 0xffffffffL; }
+    public long readUnsignedIntLE() { return readIntLE() & 0xffffffffL; }
+    private long getAt(int pos, int k, boolean le) {
+        if (pos < 0 || pos + k > w) { throw new IndexOutOfBoundsException("get at " + pos); }
+        long v = 0;
+        for (int i = 0; i < k; i++) { int sh = le ? 8 * i : 8 * (k - 1 - i); v |= ((long) (data[pos + i] & 0xff)) << sh; }
+        return v;
+    }
+    public byte getByte(int pos) { return (byte) getAt(pos, 1, false); }
+    public short getShort(int pos) { return (short) getAt(pos, 2, false); }
+    public short getShortLE(int pos) { return (short) getAt(pos, 2, true); }
+    public int getInt(int pos) { return (int) getAt(pos, 4, false); }
+    public int getIntLE(int pos) { return (int) getAt(pos, 4, true); }
+    public long getLong(int pos) { return getAt(pos, 8, false); }
+    public long getLongLE(int pos) { return getAt(pos, 8, true); }
+    public ByteBuf skipBytes(int n) { if (r + n > w) { throw new IndexOutOfBoundsException("skip past end"); } r += n; return this; }
+    public boolean isReadable() { return w > r; }
+    public boolean isReadable(int n) { return w - r >= n; }
+    public ByteBuf readerIndex(int i) { if (i < 0 || i > w) { throw new IndexOutOfBoundsException("readerIndex " + i); } r = i; return this; }
+    public ByteBuf writerIndex(int i) { if (i < r || i > data.length) { throw new IndexOutOfBoundsException("writerIndex " + i); } w = i; return this; }
+    public ByteBuf readBytes(byte[] dst, int off, int len) { byte[] t = new byte[len]; readBytes(t); System.arraycopy(t, 0, dst, off, len); return this; }
+    public int capacity() { return data.length; }
+    public ByteBuf clear() { r = 0; w = 0; return this; }
+    public boolean release() { return true; }
+
     public byte[] array() { byte[] o = new byte[w]; System.arraycopy(data, 0, o, 0, w); return o; }
 }
